@@ -180,6 +180,34 @@ def transform_key_str_equals_enum(maxlen, dst, form="str_str"):
                                  "exc": type(exc).__name__ if exc else None})
 
 
+def string_or_enum_call_sites(task):
+    """call sites that accept an enum member or its string behave identically for both spellings (concrete sweep)."""
+    from perception_eval.common.label import LabelConverter
+    from perception_eval.common.transform import HomogeneousMatrix
+    member = EvaluationTask.from_value(task)
+    parts = {}
+    for prefix in ("autoware", "traffic_light"):
+        for merge in (False, True):
+            a = LabelConverter(member, merge, prefix)
+            b = LabelConverter(task, merge, prefix)
+            parts[f"label_converter_{prefix}_{merge}"] = (
+                a.evaluation_task is b.evaluation_task and [(i.label, i.name) for i in a.label_infos]
+                == [(i.label, i.name) for i in b.label_infos])
+    try:
+        fa = FrameID.from_task(member)
+    except ValueError:
+        fa = "rejected"
+    try:
+        fb = FrameID.from_task(task)
+    except ValueError:
+        fb = "rejected"
+    parts["frame_id_from_task"] = fa is fb or fa == fb
+    m1 = HomogeneousMatrix((1.0, 2.0, 3.0), (1, 0, 0, 0), "base_link", "MAP")
+    m2 = HomogeneousMatrix((1.0, 2.0, 3.0), (1, 0, 0, 0), FrameID.BASE_LINK, FrameID.MAP)
+    parts["homogeneous_matrix_frames"] = m1.src is m2.src and m1.dst is m2.dst
+    return Out(parts=parts, obs={"task": task})
+
+
 def obligations(pid, tier):
     maxlen = 24 if tier == "quick" else 30
     obs = [
@@ -187,6 +215,9 @@ def obligations(pid, tier):
                    cases=[dict(parser=p, maxlen=maxlen) for p in PARSERS], use_shims=False,
                    desc="every member's own string value parses to that member; non-members are rejected or mapped "
                         "to the documented fallback"),
+        Obligation("string_or_enum_call_sites", string_or_enum_call_sites, use_shims=False,
+                   cases=[dict(task=m.value) for m in EvaluationTask],
+                   desc="LabelConverter / FrameID.from_task / HomogeneousMatrix given a string or the enum member"),
         Obligation("shape_str_equals_enum", lambda maxlen: shape_str_equals_enum(maxlen),
                    cases=[dict(maxlen=maxlen)], use_shims=False,
                    desc="Shape(str, size) behaves as Shape(ShapeType member, size)"),
